@@ -6,6 +6,9 @@
                                                   missing): insert the forced items, print in the gen format
           svdriver check <observed file>          re-run the model on the items the harness echoed and compare with what
                                                   the real LockServer did after every item
+          svdriver trace <observed file>          the REAL observations of every schedule (or, on a gen / expand file, the
+                                                  observations the model predicts) as a list (item, observation after it) and
+                                                  on it the extracted trace predicates of Model/SvTrace.v (sv_trace_verdict)
 
    Scenario file (line oriented; every name / key / session id hex encoded, "-" = empty string):
      scenario <id>
@@ -46,6 +49,11 @@
                                                    after item k / at the end of the schedule (R = sv_armed)
                   V <sid> z <n>                    number of V i lines of the schedule
                   (V lines exist for lib/coqeval.py: the same model items are evaluated INSIDE Coq and compared)
+   trace prints   Q <sid> <transitions> noclear=<0|1> unlock=<v> renew=<v> c06=<v> c06f=<v> live=<v> ended=<v> bound=<v> surplus=<v> over=<v>
+                    keeps=<v> fleak=<0|1>       v: - (holds at every transition) or <index of the first offending transition>@<item k>
+                  QB <sid> <text>               something in the block could not be represented (panic status, undecodable file, ...)
+                  (thread ids are renumbered 1,2,.. in order of appearance: unary numbers on the Coq side; forced `wake` items are not
+                   transitions of their own: the harness observes after them, Model/SvTrace.v's groups)
    Only enumeration, parsing and printing happen here; every state change and every enabledness / meaningfulness decision is
    made by extracted Coq code (vstep, sv_enabled, sv_forced, sitem_okb). *)
 type ostring = string
@@ -666,9 +674,140 @@ let check (file : ostring) =
   finish false;
   close_in ic
 
+
+(* ---- trace: the extracted trace predicates on the observations ---- *)
+let label_index (l : ostring) : int =
+  let rec go i = if i >= Array.length label_names then 99 else if label_names.(i) = l then i else go (i + 1) in
+  go 0
+
+let trace (file : ostring) =
+  let ic = open_in file in
+  let sid = ref "" and active = ref false and noclear = ref false in
+  let tr : (int * sitem * svobs) list ref = ref [] in                 (* newest first: item number, item, observation *)
+  let tidmap : (int, int) Hashtbl.t = Hashtbl.create 16 in
+  let kinds : (int, okind) Hashtbl.t = Hashtbl.create 16 in           (* real thread id -> what it is *)
+  let pending : (int * hitem) option ref = ref None in
+  let blk : (obs * bool) option ref = ref None in                     (* the open block, file undecodable *)
+  let bad : ostring list ref = ref [] in
+  let note m = if not (List.mem m !bad) then bad := m :: !bad in
+  let small (t : int) : nat =
+    match Hashtbl.find_opt tidmap t with
+    | Some i -> nat_of_int i
+    | None -> let i = Hashtbl.length tidmap + 1 in Hashtbl.replace tidmap t i; nat_of_int i in
+  let centry (n, k, z) = { cl_name = str_of_hex n; cl_key = str_of_hex k; cl_size = z_of_int z } in
+  let item_of (h : hitem) : sitem =
+    match h with
+    | HConnect s -> VConnect s
+    | HCall (t, op) -> VCall (small t, op)
+    | HRun t | HWake t -> VRun (small t)
+    | HCancel (t, e) -> VCancel (small t, e)
+    | HConnEnd s -> VConnEnd s
+    | HTick d -> VTick (z_of_int d)
+    | HSignal -> VSignal in
+  let svobs_of (o : obs) : svobs =
+    let thr = List.filter_map (fun (t, st) ->
+        match Hashtbl.find_opt kinds t with
+        | None -> note (Printf.sprintf "unknown-goroutine:%d" t); None
+        | Some kind ->
+            let st' = match st with
+              | SP l -> OsP (nat_of_int (label_index l))
+              | SB -> OsB
+              | SF (ok, e) -> OsF { sr_ok = ok; sr_err = err_of_tok e }
+              | SE -> OsE
+              | SZ -> note (Printf.sprintf "panic:%d" t); OsE in
+            Some (small t, { ot_kind = kind; ot_st = st' })) (List.rev o.o_thr) in
+    { ob_thr = thr;
+      ob_table = List.rev_map (fun (n, z, ks) -> (str_of_hex n, (z_of_int z, List.map str_of_hex ks))) o.o_tab;
+      ob_tmkeys = List.rev_map (fun (n, k) -> (str_of_hex n, str_of_hex k)) o.o_tmr;
+      ob_sess = List.rev_map (fun (s, l) -> (str_of_hex s, List.map centry l)) o.o_ses;
+      ob_listing = List.map centry o.o_lst;
+      ob_file = (match o.o_file with None -> None | Some l -> Some (List.rev_map (fun (s, l) -> (str_of_hex s, List.map centry l)) l)) } in
+  let flush_block () =
+    (match !blk, !pending with
+     | Some (o, fbad), Some (k, h) ->
+         if fbad then note (Printf.sprintf "file-undecodable:%d" k);
+         tr := (k, item_of h, svobs_of o) :: !tr;
+         pending := None
+     | Some _, None -> note "block-without-item"
+     | None, _ -> ());
+    blk := None in
+  let register_spawn (toks : ostring list) =
+    let rec after = function [] -> [] | "spawn" :: r -> r | _ :: r -> after r in
+    List.iter (fun a ->
+        match String.split_on_char ':' a with
+        | [t; "x"; n; k] -> Hashtbl.replace kinds (int_of_string t) (OkExp (str_of_hex n, str_of_hex k))
+        | [t; "d"; s] -> Hashtbl.replace kinds (int_of_string t) (OkDs (str_of_hex s))
+        | [t; "s"] -> Hashtbl.replace kinds (int_of_string t) OkSh
+        | _ -> ()) (after toks) in
+  let finish () =
+    if !active then begin
+      flush_block ();
+      let l = List.rev !tr in
+      let ks = Array.of_list (List.map (fun (k, _, _) -> k) l) in
+      let h = List.map (fun (_, it, o) -> (it, o)) l in
+      let show = function
+        | None -> "-"
+        | Some n -> let n = int_of_nat n in Printf.sprintf "%d@%d" n (if n >= 0 && n < Array.length ks then ks.(n) else -1) in
+      List.iter (fun m -> Printf.printf "QB %s %s\n" !sid m) (List.rev !bad);
+      (match sv_trace_verdict !noclear h with
+       | [unl; ren; c06; c06f; live; ended; bound; surplus; over; keeps] ->
+           Printf.printf "Q %s %d noclear=%d unlock=%s renew=%s c06=%s c06f=%s live=%s ended=%s bound=%s surplus=%s over=%s keeps=%s fleak=%d\n"
+             !sid (List.length h) (if !noclear then 1 else 0) (show unl) (show ren) (show c06) (show c06f) (show live) (show ended) (show bound)
+             (show surplus) (show over) (show keeps) (if sig_fleak h then 1 else 0)
+       | _ -> Printf.printf "QB %s verdict-shape\n" !sid)
+    end;
+    active := false in
+  (try
+     while true do
+       let line = input_line ic in
+       try
+         match split_ws line with
+         | ["S"; id] ->
+             finish ();
+             sid := id; active := true; noclear := false; tr := []; Hashtbl.reset tidmap; Hashtbl.reset kinds; pending := None; blk := None; bad := []
+         | ["C"; v] when !active -> noclear := (v = "1")
+         | ("I" | "J") :: k :: rest when !active ->
+             flush_block ();
+             register_spawn rest;
+             let it = hitem_of_toks rest in
+             (match it with HCall (t, op) -> Hashtbl.replace kinds t (OkCall op) | _ -> ());
+             if not (is_forced it) then begin
+               (match !pending with Some (k0, _) -> note (Printf.sprintf "item-without-observation:%d" k0) | None -> ());
+               pending := Some (int_of_string k, it)
+             end
+         | ["M"; "thr"; t; "x"; n; k] when !active -> Hashtbl.replace kinds (int_of_string t) (OkExp (str_of_hex n, str_of_hex k))
+         | ["M"; "thr"; t; "d"; s] when !active -> Hashtbl.replace kinds (int_of_string t) (OkDs (str_of_hex s))
+         | "M" :: "thr" :: t :: "s" :: _ when !active -> Hashtbl.replace kinds (int_of_string t) OkSh
+         | "M" :: _ | "MQ" :: _ | "N" :: _ -> ()
+         | [("X" | "Y"); _; now] when !active -> flush_block (); blk := Some ({ empty_obs with o_now = int_of_string now }, false)
+         | "T" :: t :: rest when !active ->
+             (match !blk with Some (b, f) -> blk := Some ({ b with o_thr = (int_of_string t, stat_of_toks rest) :: b.o_thr }, f) | None -> ())
+         | "L" :: name :: size :: _ :: keys when !active ->
+             (match !blk with Some (b, f) -> blk := Some ({ b with o_tab = (name, int_of_string size, keys) :: b.o_tab }, f) | None -> ())
+         | ["A"; name; key] when !active ->
+             (match !blk with Some (b, f) -> blk := Some ({ b with o_tmr = (name, key) :: b.o_tmr }, f) | None -> ())
+         | "P" :: sid' :: _ :: rest when !active ->
+             (match !blk with Some (b, f) -> blk := Some ({ b with o_ses = (sid', centries_of_toks rest) :: b.o_ses }, f) | None -> ())
+         | "G" :: n :: rest when !active && (match int_of_string_opt n with Some _ -> true | None -> false) ->
+             (match !blk with Some (b, f) -> blk := Some ({ b with o_lst = centries_of_toks rest }, f) | None -> ())
+         | "F" :: v :: _ when !active ->
+             (match !blk with Some (b, _) -> blk := Some ({ b with o_file = (if v = "1" then Some [] else None) }, v = "2") | None -> ())
+         | "Q" :: sid' :: _ :: rest when !active ->
+             (match !blk with
+              | Some (b, f) -> blk := Some ({ b with o_file = Some ((sid', centries_of_toks rest) :: (match b.o_file with Some l -> l | None -> [])) }, f)
+              | None -> ())
+         | ["Z"] -> finish ()
+         | _ -> ()
+       with Bad m | Failure m -> note ("parse:" ^ String.map (fun c -> if c = ' ' then '_' else c) m)
+     done
+   with End_of_file -> ());
+  finish ();
+  close_in ic
+
 let () =
   match Array.to_list Sys.argv with
   | [_; "gen"; file; seed] -> (try gen file (int_of_string seed) with Bad m -> prerr_endline ("bad input: " ^ m); exit 2)
   | [_; "expand"; file] -> (try expand file with Bad m -> prerr_endline ("bad input: " ^ m); exit 2)
   | [_; "check"; file] -> check file
-  | _ -> prerr_endline "usage: svdriver gen <scenario file> <seed> | svdriver expand <plain schedules> | svdriver check <observed file>"; exit 2
+  | [_; "trace"; file] -> trace file
+  | _ -> prerr_endline "usage: svdriver gen <scenario file> <seed> | svdriver expand <plain schedules> | svdriver check <observed file> | svdriver trace <observed file>"; exit 2
